@@ -716,9 +716,8 @@ Definition load_workload (profiles : option (list d_profile)) (graphs : option (
 
 (* populate_task_graphs: every mapped job graph, in order; numpy arrays are consumed per
    POISSON / GAMMA policy call, uniform draws two per task graph *)
-(* [completion] = None: WorkloadLoader was given a flags object and hands the INTEGER flag
-   loop_timeout to generate_task_graphs (workload_loader.py:77); PERIODIC then calls .to() on an
-   int: AttributeError *)
+(* [completion] = None models a caller that hands a bare int to generate_task_graphs (what WorkloadLoader did
+   before /repo 3effb4b): PERIODIC then calls .to() on an int: AttributeError.  Kept for the regression lemma. *)
 Definition release_times_opt (p : policy) (completion : option etime) (zd : list Z) (fd : list fl) : result (list etime) :=
   match completion with
   | Some c => get_release_times p c zd fd
@@ -830,7 +829,7 @@ Definition vljg (l : ljg) : val :=
 
 (* the raw flag values; WorkloadLoader.__init__ turns them into overrides *)
 Record raw_flags := mkRF { rf_rate : fl; rf_coef : fl; rf_period : Z; rf_inv : Z; rf_unique : bool; rf_repl : Z;
-                           rf_slo : Z; rf_minb : Z; rf_maxb : Z }.
+                           rf_slo : Z; rf_minb : Z; rf_maxb : Z; rf_timeout : Z }.
 Definition flags_view (o : option raw_flags) : d_flags :=
   match o with
   | None => mkDF None None None None false 1 None 0 (2 ^ 63 - 1)
@@ -841,9 +840,11 @@ Definition flags_view (o : option raw_flags) : d_flags :=
                    (rf_unique r) (rf_repl r)
                    (if 0 <? rf_slo r then Some (rf_slo r) else None) (rf_minb r) (rf_maxb r)
   end.
-(* without flags the horizon is EventTime(sys.maxsize, US); with flags it is the bare integer flag *)
+(* the horizon handed to generate_task_graphs: EventTime(sys.maxsize, US) without flags,
+   EventTime(loop_timeout, US) with flags (workload_loader.py:76, since /repo 3effb4b; before that fix the bare
+   int flag was passed and every `periodic` document raised AttributeError) *)
 Definition loader_horizon (o : option raw_flags) : option etime :=
-  match o with None => Some (mkET (2 ^ 63 - 1) U_US) | Some _ => None end.
+  match o with None => Some (mkET (2 ^ 63 - 1) U_US) | Some r => Some (mkET (rf_timeout r) U_US) end.
 Record load_case := mkLC { lc_profiles : option (list d_profile); lc_graphs : option (list d_graph); lc_rflags : option raw_flags;
                            lc_zcalls : list (list Z); lc_fcalls : list (list fl); lc_us : list fl }.
 Definition lc_flags (c : load_case) : d_flags := flags_view (lc_rflags c).
